@@ -455,7 +455,7 @@ def r09_7(ctx):
             o["rule"] = "R09.7"
 
 
-def _r099_tags(prog, h, x, depth=0):
+def _r099_tags(prog, h, x, depth=0, callctx=None):
     """what an addend derives from: 'off' (the validator's offset) / 'idx' (the reader's index field); a closure's
     captured variable is followed to the place the enclosing function captured"""
     tags = set()
@@ -465,6 +465,12 @@ def _r099_tags(prog, h, x, depth=0):
     for lf in xl:
         if lf[0] == "call" and callee_is(lf[2], "offset", "valid_up_to"):
             tags.add("off")
+        # a parameter of a helper: what the caller passes for it
+        pk = lf[1] if lf[0] == "param" else (h.src(lf[1][0])[1] if lf[0] == "place" and h.src(lf[1][0])[0] == "param" and not h.parent_fn else None)
+        if pk is not None and callctx and h.id in callctx:
+            cf, ct = callctx[h.id]
+            if 1 <= pk <= len(ct["args"]) and op_local(ct["args"][pk - 1]) is not None:
+                tags |= _r099_tags(prog, cf, op_local(ct["args"][pk - 1]), depth + 1, callctx) - {"off"}
         if lf[0] == "place":
             proj = lf[1][1]
             if "index" in [e[2] for e in proj if isinstance(e, list) and e[0] == "."]:
@@ -495,13 +501,19 @@ def r09_9(ctx):
         ctx.fail_closed("R09.9", "impl Reader for Read::check_invalid_utf8")
         return
     f = fs[0]
-    bodies = prog.with_closures(f)
+    bodies = list(prog.with_closures(f))
+    # a helper of the same file that runs the validator for this function is read in the context of the call
+    callctx = {}
+    for b, t in f.calls():
+        h = prog.fns.get(t["callee"])
+        if h is not None and h.crate == "sonic_rs" and h.file == f.file and any(callee_is(tt, "from_utf8") for x in prog.with_closures(h) for bb, tt in x.calls()):
+            callctx[h.id] = (f, t)
+            bodies += [x for x in prog.with_closures(h) if x not in bodies]
     fu = [(g, b, t) for g in bodies for b, t in g.calls() if callee_is(t, "from_utf8")]
     ok_tail = False
     for g, b, t in fu:
         l = op_local(t["args"][0])
-        sl, leaves = backward_slice(g, [l]) if l is not None else (set(), [])
-        if any(lf[0] == "place" and "index" in [e[2] for e in lf[1][1] if isinstance(e, list) and e[0] == "."] for lf in leaves):
+        if "idx" in _r099_tags(prog, g, l, 0, callctx):
             ok_tail = True
     ctx.ob("R09.9", "validates-unread-tail", ok_tail, f.loc(), "the validator runs over the unread tail input[index..]", nontrivial=False)
     # stores to next_invalid_utf8
@@ -532,7 +544,7 @@ def r09_9(ctx):
                 rv = ss["rv"]
                 if rv["k"] == "binop" and rv["op"].startswith("Add"):
                     la, lb = op_local(rv["a"]), op_local(rv["b"])
-                    srcs = [_r099_tags(prog, h, x) for x in (la, lb)]
+                    srcs = [_r099_tags(prog, h, x, 0, callctx) for x in (la, lb)]
                     if ("off" in srcs[0] and "idx" in srcs[1]) or ("idx" in srcs[0] and "off" in srcs[1]):
                         rebased = True
         ctx.ob("R09.9", f"rebased-offset@{len([o for o in ctx.obligations if o['rule'] == 'R09.9'])}", (not off) or rebased, g.loc(s_["ln"]),
